@@ -319,6 +319,25 @@ func (p *program) initialiserContains(pkg, name, text string) bool {
 		return false
 	}
 	for _, f := range pp.Syntax {
+		// local `name := "..."` definitions inside functions count too (e.g. a DSN assembled in a constructor)
+		found := false
+		ast.Inspect(f, func(n ast.Node) bool {
+			as, ok := n.(*ast.AssignStmt)
+			if !ok || as.Tok != token.DEFINE {
+				return true
+			}
+			for i, l := range as.Lhs {
+				if id, ok := l.(*ast.Ident); ok && id.Name == name && i < len(as.Rhs) {
+					if strings.Contains(p.src(as.Rhs[i].Pos(), as.Rhs[i].End()), text) {
+						found = true
+					}
+				}
+			}
+			return true
+		})
+		if found {
+			return true
+		}
 		for _, d := range f.Decls {
 			gd, ok := d.(*ast.GenDecl)
 			if !ok || gd.Tok != token.VAR {
